@@ -515,14 +515,18 @@ def run(ch: Checker) -> None:
     def _guard_of(fn: FuncInfo, pred: Any) -> Optional[Dict[str, bool]]:
         gg = cfg_of(fn, prog, exc_edges=False)
         seen = None
+        locals_ = {x.id for x in ast.walk(fn.node) if isinstance(x, ast.Name) and isinstance(x.ctx, ast.Store)} - set(fn.params)
         for p in fpaths(gg):
+            sym6 = Sym(p)
             for i, st in p.stmts():
-                if any(pred(c) for c in walk_no_nested(st)):
-                    fd = {k.replace('self.flags.', ''): v for k, v in allfacts(p, i).items()}
+                if any(pred(c, sym6, i) for c in walk_no_nested(st)):
+                    # in terms of the inputs: a local flag that names a condition is that condition (allfacts carries both), constants decide nothing
+                    fd = {k.replace('self.flags.', ''): v for k, v in allfacts(p, i).items() if k not in ('True', 'False') and k not in locals_}
                     seen = fd if seen is None else {k: v for k, v in seen.items() if fd.get(k) == v}
         return seen
-    g_tx = _guard_of(dw, lambda c: isinstance(c, ast.Call) and isinstance(c.func, ast.Attribute) and c.func.attr == 'send' and c.args and norm(c.args[0]) == dw.params[dw.params.index('addr')] if 'addr' in dw.params else False)
-    g_rx = _guard_of(rx, lambda c: isinstance(c, ast.Call) and attr_chain(c.func) == 'self.work_queue.recv')
+    # by value: the thing sent is the address parameter, through however many locals / helper parameters it went
+    g_tx = _guard_of(dw, lambda c, sy, i: isinstance(c, ast.Call) and isinstance(c.func, ast.Attribute) and c.func.attr == 'send' and c.args and norm(sy.value(c.args[0], i)) == 'addr' if 'addr' in dw.params else False)
+    g_rx = _guard_of(rx, lambda c, sy, i: isinstance(c, ast.Call) and attr_chain(c.func) == 'self.work_queue.recv')
     ok6 = g_tx is not None and g_rx is not None and g_tx == g_rx and 'unix_socket_path' in g_tx
     ch.check(bool(ok6), 'C19.6', dw, 'address message: sender = receiver', 'address sent and read under the same condition %s' % g_tx,
              'the acceptor sends the client address under %s but the remote executor reads one under %s: with a Unix socket AND TCP ports configured the first TCP connection leaves an unread '
